@@ -167,7 +167,7 @@ def _gc_old(keep):
     base = os.path.join(CACHE, "facts")
     ents = [(os.path.getmtime(os.path.join(base, d)), d) for d in os.listdir(base) if d != keep]
     ents.sort(reverse=True)
-    for _, d in ents[4:]:
+    for _, d in ents[int(os.environ.get('VERIF_FACTS_KEEP', '24')):]:
         shutil.rmtree(os.path.join(base, d), ignore_errors=True)
 
 
